@@ -61,7 +61,8 @@ claim("C02", "exploration",
       "deterministic simulation with schedule recording, history check over block order", "DESIGN.md 4 C02")
 claim("C07", "exploration",
       "ff_ring templates (swap rings, reversed shift chains, holds, overwritten assignments, struct and list "
-      "registers, registers behind nets) and ff_heavy generated designs under 3 of 13 schedulers with seeded "
+      "registers, registers behind nets) and ff_heavy generated designs (incl. delay lines written through a constant "
+      "and a loop-variable index, temporaries in sequential blocks, multi-register component hierarchies) under 3 of 13 schedulers with seeded "
       "permutations of the update_ff blocks, resets and glitches. Oracle: state after each tick equals the reference "
       "F(pre-edge state, inputs); a monitor firing on entry of the generated flip function sees every signal still at "
       "its pre-edge value.",
@@ -129,7 +130,8 @@ claim("C18", "exploration",
 claim("C20", "exploration",
       "TinyRV0 programs generated against tinyrv0-isa.md with our own bit-level encoder (all ten instructions, few "
       "registers to force hazards, forward branches, counted backward loops, loads/stores through base and computed "
-      "address registers, csr traffic to manager and accelerator, shifts by >= 32, writes to x0) run on ProcFL, ProcCL "
+      "address registers, csr traffic to manager and accelerator, shifts by >= 32, writes to x0, load-use-branch and "
+      "manager-read-in-branch-shadow hazard patterns) run on ProcFL, ProcCL "
       "and ProcRTL inside the repository's harness wiring (MagicMemoryCL, NullXcelRTL, adapters inserted by connect) "
       "with our seeded-gap source, recording back-pressured sink, seeded memory stalls and latencies 1..6. Each level "
       "must deliver exactly the proc2mngr sequence, consume exactly the mngr2proc words and leave exactly the data "
@@ -168,7 +170,8 @@ claim("C14", "exploration",
 claim("C03", "translation_validation",
       "Every design (generated 'translatable' DesignSpecs covering the constructs the translation documentation lists; "
       "a corpus of real RTL from pymtl3.stdlib and the examples incl. ProcRTL; the repository's ~250 translator "
-      "test-case DUTs; tiny probes of known findings) is translated by the real VerilogTranslationPass with its file "
+      "test-case DUTs; generated interface-centred designs with N-dimensional interface / component lists and permuted "
+      "interface-level connects; multi-instance parametrised designs; tiny probes of known findings) is translated by the real VerilogTranslationPass with its file "
       "I/O bound to an in-memory directory; the emitted text must parse and elaborate, have exactly one driver per "
       "variable bit, no blocking assignment in always_ff, and a port list equal to the one derived from the PyMTL port "
       "types; it is then executed by svsim next to the PyMTL simulation of a second instance for 8..60 cycles of seeded "
@@ -193,7 +196,8 @@ claim("C12", "translation_validation",
       "translation validation by deterministic co-simulation with a seeded SV process scheduler", "DESIGN.md 4 C12")
 claim("C13", "exploration",
       "Batches of designs (generated DesignSpecs, parameterised template classes at colliding int/Bits/type/list/string "
-      "parameter values incl. lists long enough to trigger name hashing, the same class+parameters at several "
+      "parameter values incl. lists long enough to trigger name hashing and pairs that differ only in their last element, "
+      "defaults passed positionally / by keyword / skipped / overridden through set_param, the same class+parameters at several "
       "positions, stdlib corpus, repository test-case DUTs, probes) are translated by both backends in three fresh "
       "interpreters with different PYTHONHASHSEED values, different seeded object-hash streams and ASLR on. The texts "
       "must be byte-identical; every module must be defined once and every instantiated module defined, identifiers "
